@@ -2,6 +2,7 @@ import Proofs.AdjointAll
 import Proofs.PointwiseCalc
 import Proofs.Subgradient
 import Props.C01Formulas
+import Props.C01Calls
 /-!
 # C01 — Backward of every tensor op yields the exact vector-Jacobian product
 
